@@ -184,9 +184,11 @@ def eval_files(pid, files, jobs=16, timeout=900):
             path = os.path.join(rundir, name + ".v")
             with open(path, "w") as f:
                 f.write(text)
+            # output goes to a file: a pipe that is only read after exit deadlocks beyond ~64 KB
+            outf = open(os.path.join(rundir, name + ".out"), "w")
             p = subprocess.Popen(["coqc", "-Q", COQ, LOGICAL, "-Q", rundir, "HVRun", path],
-                                 cwd=rundir, stdout=subprocess.PIPE, stderr=subprocess.STDOUT,
-                                 text=True)
+                                 cwd=rundir, stdout=outf, stderr=subprocess.STDOUT, text=True)
+            outf.close()
             running.append((name, p, time.time()))
         still = []
         for name, p, ts in running:
@@ -197,7 +199,8 @@ def eval_files(pid, files, jobs=16, timeout=900):
                 else:
                     still.append((name, p, ts))
             else:
-                results.append((name, p.returncode, p.stdout.read()))
+                with open(os.path.join(rundir, name + ".out")) as f:
+                    results.append((name, p.returncode, f.read()))
         running = still
         if running:
             time.sleep(0.05)
